@@ -109,6 +109,7 @@ const (
 	OBvSToReal // signed bv -> real
 	OApp       // uninterpreted function application (name)
 	OIntToReal // Int -> Real
+	ORatio     // exact mode: num/den kept apart (never reasoned about with a division operator)
 )
 
 var opNames = map[Op]string{
@@ -119,7 +120,7 @@ var opNames = map[Op]string{
 	OBvUlt: "bvult", OBvUle: "bvule", OBvSlt: "bvslt", OBvSle: "bvsle", OConcat: "concat",
 	OFpAdd: "fp.add RNE", OFpSub: "fp.sub RNE", OFpMul: "fp.mul RNE", OFpDiv: "fp.div RNE", OFpNeg: "fp.neg",
 	OFpLt: "fp.lt", OFpLe: "fp.leq", OFpEq: "fp.eq", OFpIsNaN: "fp.isNaN", OFpIsInf: "fp.isInfinite",
-	OFpToReal: "fp.to_real", OIntToReal: "to_real",
+	OFpToReal: "fp.to_real", OIntToReal: "to_real", ORatio: "/",
 	ORAdd:     "+", ORSub: "-", ORMul: "*", ORDiv: "/", ORNeg: "-", ORLt: "<", ORLe: "<=",
 }
 
@@ -1175,3 +1176,22 @@ func Vars(ts ...*Term) []*Term {
 func (t *Term) eqSelf(b *Builder) *Term { return b.Bool(true) }
 
 func (b *Builder) IntToReal(x *Term) *Term { return b.mk(OIntToReal, RealSort, 0, 0, "", x) }
+
+// Ratio builds num/den as a rational-function node.
+func (b *Builder) Ratio(n, d *Term) *Term {
+	if d.IsConst() {
+		if d.R.Sign() == 0 {
+			panic(engineError{"ratio with zero denominator"})
+		}
+		return b.RBin(ORMul, n, b.RealConst(new(big.Rat).Inv(d.R)))
+	}
+	return b.mk(ORatio, RealSort, 0, 0, "", n, d)
+}
+
+// NumDen splits a real term into numerator and denominator polynomials.
+func (b *Builder) NumDen(t *Term) (*Term, *Term) {
+	if t.Op == ORatio {
+		return t.Args[0], t.Args[1]
+	}
+	return t, b.RealConst(big.NewRat(1, 1))
+}
